@@ -64,8 +64,10 @@ if sw:
             "explained below (caught by a neighbouring check, obsolete after a repair, or outside what the property claims).", ""]
 out += ["", "%d of the %d were caught by the checks as they were when the regression arrived. Every miss pointed at a shape the generator did" % (first_caught, n),
         "not reach or an observation the oracle did not make; each was closed by widening the generator or the oracle (never by raising",
-        "case counts), after which all are caught - with nine exceptions that are explained in their `meta.json`:", "",
+        "case counts), after which all are caught - with ten exceptions that are explained in their `meta.json`:", "",
         "* **C12-m4** (a callback switches off the process-wide file restrictions) is outside what C12 quantifies over; it is caught by C16.",
+        "* **C08-m10** (a merge result takes its tags from the override) is a merge matter with a set before and a write after it; C03 catches",
+        "  it since it requires the documented tag inheritance.",
         "* **C04-m3** (comment lines recognised by the first comment character only) was caught by C04 through the heap overrun it provoked;",
         "  that overrun turned out to be genuine defect RC22 reached by another route (fix e897c9d). Since the repair the mutation has no",
         "  memory-safety effect; what remains (a comment line continues the previous value) is C05's subject and C05 catches it.",
